@@ -537,7 +537,7 @@ func GenCacheCase(r *vh.Rng, flavor string) Case {
 		present = []int64{2, 1, 3}
 	}
 	c.Ops = append(c.Ops, Op{Op: "set", Field: "items", Items: mk(present)})
-	q := FirstCacheSubQuery + r.Intn(len(SubQueries)-FirstCacheSubQuery)
+	q := FirstCacheSubQuery + r.Intn(FirstClockSubQuery-FirstCacheSubQuery)
 	sid := IDPool[r.Intn(3)]
 	c.Ops = append(c.Ops, Op{Op: "subscribe", ID: sid, Q: q, Sync: "settle"})
 	val := int64(100)
@@ -589,7 +589,7 @@ func GenCacheCase(r *vh.Rng, flavor string) Case {
 			c.Ops = append(c.Ops, Op{Op: "set", Field: "s", Str: r.Pick([]string{"p", "q", "r"}), Sync: "settle"})
 		case j < 94:
 			// a second subscription on the same data
-			c.Ops = append(c.Ops, Op{Op: "subscribe", ID: IDPool[3+r.Intn(len(IDPool)-3)], Q: FirstCacheSubQuery + r.Intn(len(SubQueries)-FirstCacheSubQuery), Sync: "settle"})
+			c.Ops = append(c.Ops, Op{Op: "subscribe", ID: IDPool[3+r.Intn(len(IDPool)-3)], Q: FirstCacheSubQuery + r.Intn(FirstClockSubQuery-FirstCacheSubQuery), Sync: "settle"})
 		default:
 			c.Ops = append(c.Ops, Op{Op: "unsubscribe", ID: sid, Sync: "settle"}, Op{Op: "subscribe", ID: sid, Q: q, Sync: "settle"})
 		}
@@ -680,6 +680,33 @@ func GenBurstCase(r *vh.Rng) Case {
 		// wait until some (not all) of the k re-runs this change causes have completed, then change the field again
 		c.Ops = append(c.Ops, Op{Op: "awaitruns", N: 1 + r.Intn(k-1)})
 		set("settle")
+	}
+	return c
+}
+
+// GenDeadlineCase: a subscription on the time-dependent field `phase` ("active" until a deadline, "expired" from it
+// on; the resolver registers the deadline with reactive.InvalidateAt after some work of its own) while deadlines are
+// set that lie far enough ahead, a few milliseconds ahead (closer than the resolver's own work takes), or in the past.
+func GenDeadlineCase(r *vh.Rng) Case {
+	c := Case{Max: 3, Origin: "generated-deadline"}
+	if r.Chance(30) {
+		c.Spawn = true
+	}
+	q := FirstClockSubQuery + r.Intn(2)
+	sid := IDPool[r.Intn(3)]
+	c.Ops = append(c.Ops, Op{Op: "subscribe", ID: sid, Q: q, Sync: "settle"})
+	n := 2 + r.Intn(4)
+	for i := 0; i < n; i++ {
+		switch j := r.Intn(100); {
+		case j < 75:
+			ahead := []int{-5, 0, 2, 4, 8, 25, 40}[r.Intn(7)]
+			slow := []int{0, 0, 6, 12, 30}[r.Intn(5)]
+			c.Ops = append(c.Ops, Op{Op: "deadline", Int: int64(ahead), N: slow, Sync: "settle"})
+		case j < 90:
+			c.Ops = append(c.Ops, Op{Op: "set", Field: "a", Int: int64(r.Intn(9)), Sync: "settle"})
+		default:
+			c.Ops = append(c.Ops, Op{Op: "unsubscribe", ID: sid, Sync: "settle"}, Op{Op: "subscribe", ID: sid, Q: q, Sync: "settle"})
+		}
 	}
 	return c
 }
